@@ -57,6 +57,18 @@ def one_run(prop, profile, base_seed, idx, opts):
             res['violations'].append(v.as_dict())
     if res['violations']:
         res['trace'] = w.trace
+    # what-if branches (arbitrary adversary frames / faults tried on deep copies of the simulation)
+    res['branches'] = g.branch_ctr
+    res['steps'] += g.branch_steps
+    for k, v in g.branch_probes.items():
+        res['probes'][k] = res['probes'].get(k, 0) + v
+    for k, v in g.branch_faults.items():
+        res['faults'][k] = res['faults'].get(k, 0) + v
+    res['nontrivial'] = res['nontrivial'] or g.branch_nontrivial
+    if not res['violations'] and g.branch_findings:
+        vs, trace = g.branch_findings[0]
+        res['violations'] = [v.as_dict() for v in vs]
+        res['trace'] = trace
     if opts.get('want_sample') and not res['violations']:
         res['sample'] = sample_of(w)
     return res
